@@ -338,14 +338,15 @@ func c12RealExchange(ctx context.Context, tr http.RoundTripper, addr string, in 
 			resp, err := tr.RoundTrip(req)
 			ch <- rtResult{resp, err}
 		}()
-		if _, err := pw.Write(frames[0]); err != nil {
-			return fail(err)
-		}
+		// A write fails when the server has already finished its response (an error response):
+		// the transport then closes the request body. That is not a failure of the exchange.
+		stop := context.AfterFunc(ctx, func() { _ = pw.CloseWithError(ctx.Err()) })
+		defer stop()
+		_, werr := pw.Write(frames[0])
 		var res rtResult
 		select {
 		case res = <-ch:
 		case <-ctx.Done():
-			_ = pw.CloseWithError(ctx.Err())
 			return fail(ctx.Err())
 		}
 		if res.err != nil {
@@ -356,10 +357,8 @@ func c12RealExchange(ctx context.Context, tr http.RoundTripper, addr string, in 
 		defer resp.Body.Close()
 		// one response message per request message, interleaved
 		for i := range frames {
-			if i > 0 {
-				if _, err := pw.Write(frames[i]); err != nil {
-					return fail(err)
-				}
+			if i > 0 && werr == nil {
+				_, werr = pw.Write(frames[i])
 			}
 			flags, payload, err := c12ReadEnvelope(resp.Body)
 			if errors.Is(err, io.EOF) { // the response ended early (an error response): stop sending
